@@ -57,3 +57,7 @@ add("C10", "SEQ", "model_checking", "explicit-state BFS over step-by-step histor
 add("C09", "CRASH", "fault_enumeration", "exhaustive crash-point and torn-write enumeration of filesystem histories through the os shim, recovery oracle after reopen",
     "For every history up to length 2 / 3 over 12 single-request operations from four start states (plus longer scripts), every mutating filesystem call of the directory store is a crash point and every write is torn at three offsets; the directory left behind is reopened by a new server and must load, hold only blob files that hash to their names, resolve every tag to a complete image, and show either the state before or the state after the interrupted request on all read endpoints, with every earlier acknowledged request in effect.",
     TRUSTED + " Process-crash model (no loss of un-synced pages).", "DESIGN.md section 4 C09")
+
+add("C17", "CRASH", "fault_enumeration", "exhaustive enumeration of a generated layout family x stores, plus every crash point of each conversion, on the implementation",
+    "Every layout of a generated family of legacy (fallback tag) layouts is opened with a writable directory store and with a memory store over the directory: the converted referrers must be exactly the listed artifacts that exist and name the subject, everything else stays served, the layout is marked converted, a second round and a reopen agree, the first access terminates (dead-lock = no enabled thread under the deterministic runtime), and a crash before every mutating filesystem call of the conversion followed by a reopen gives the uninterrupted result.",
+    TRUSTED, "DESIGN.md section 4 C17")
